@@ -25,10 +25,18 @@
 (* Actions = the critical sections of fixpoint.rs:                         *)
 (*   Start       compute() / compute_with_max_steps(k) is entered          *)
 (*   Pop(v)      a node leaves the worklist: PopVisit (steps[v]++, its     *)
-(*               out-edges become pending) or PopDefer (bound reached: it  *)
-(*               moves to the set of non-stabilised nodes).  ANY worklist  *)
-(*               node may be popped: the priority order is a choice of the *)
-(*               implementation that C07 quantifies over.                  *)
+(*               out-edges become pending; only below the step bound) or   *)
+(*               PopDefer (it moves to the set of non-stabilised nodes).   *)
+(*               ANY worklist node may be popped: the priority order is a  *)
+(*               choice of the implementation that C07 quantifies over.    *)
+(*               The step bound is an UPPER bound only: with a bound a     *)
+(*               solver may give up on a node earlier (PopDefer is enabled *)
+(*               for every queued node); fixpoint.rs does so exactly when  *)
+(*               the bound is reached.                                     *)
+(*   Requeue(v)  environment action: a node that has a value re-enters the *)
+(*               worklist although nothing changed (a solver may re-visit  *)
+(*               nodes needlessly; C07 does not forbid it).  fixpoint.rs   *)
+(*               never does.  Not part of the fair (liveness) behaviours.  *)
 (*   UpdateEdge(e) update_edge + merge_node_value for ANY pending out-edge *)
 (*   FinishNode  update_node returns                                       *)
 (*   Finish      the loop ends: worklist := non-stabilised nodes           *)
@@ -146,12 +154,21 @@ PopVisit(v) ==
   /\ steps' = IF Bounded(cfg) THEN [steps EXCEPT ![v] = @ + 1] ELSE steps
   /\ cur' = [n |-> v, todo |-> OutEdges(cfg, v), snap |-> val[v]]
   /\ UNCHANGED <<cfg, lfp, val, unstable, phase>>
-\* `else { non_stabilized_nodes.insert(priority) }`
+\* `else { non_stabilized_nodes.insert(priority) }`.  fixpoint.rs defers a node exactly when
+\* ~CanVisit(v); the property only demands "not more often than the bound", so giving up earlier
+\* is admitted whenever there is a bound (never for compute(), which must reach the least solution)
 PopDefer(v) ==
-  /\ phase = "run" /\ cur = NoCur /\ v \in wl /\ ~CanVisit(v)
+  /\ phase = "run" /\ cur = NoCur /\ v \in wl /\ Bounded(cfg)
   /\ wl' = wl \ {v} /\ unstable' = unstable \cup {v}
   /\ UNCHANGED <<cfg, lfp, val, steps, cur, phase>>
 Pop(v) == PopVisit(v) \/ PopDefer(v)
+
+\* A needless re-queue (environment).  The worklist is only read when a node is popped, i.e.
+\* between visits, so re-queues during a visit are represented by one right after it.
+Requeue(v) ==
+  /\ phase = "run" /\ cur = NoCur /\ v \notin wl /\ val[v] # None
+  /\ wl' = wl \cup {v}
+  /\ UNCHANGED <<cfg, lfp, val, steps, cur, unstable, phase>>
 
 (* update_edge + merge_node_value for a pending out-edge e of the current  *)
 (* node, reading the source value x.  fixpoint.rs re-reads node_values for *)
@@ -184,18 +201,20 @@ Finish ==
   /\ wl' = unstable /\ unstable' = {} /\ phase' = "done"
   /\ UNCHANGED <<cfg, lfp, val, steps, cur>>
 
-Next == \/ Start
-        \/ \E v \in Nodes(cfg) : Pop(v)
-        \/ \E e \in Edges(cfg) : UpdateEdge(e)
-        \/ FinishNode
-        \/ Finish
+\* the solver's own steps (fair), and all steps including the environment's needless re-queues
+NextCore == \/ Start
+            \/ \E v \in Nodes(cfg) : Pop(v)
+            \/ \E e \in Edges(cfg) : UpdateEdge(e)
+            \/ FinishNode
+            \/ Finish
+Next == NextCore \/ \E v \in Nodes(cfg) : Requeue(v)
 
 ----------------------------------------------------------------------------
 (* Properties (C07)                                                        *)
 
 Closed(e) == ClosedIn(cfg, val, e)
 
-\* no node is processed more often than the bound
+\* no node is processed more often than the bound (an upper bound only)
 StepBound == Bounded(cfg) => \A v \in Nodes(cfg) : steps[v] <= cfg.maxsteps
 
 \* chaotic iteration never overshoots the least solution, and never loses the start values
@@ -225,6 +244,7 @@ TypeOK ==
   /\ cur = NoCur \/ (cur.n \in Nodes(cfg) /\ cur.todo \subseteq OutEdges(cfg, cur.n) /\ val[cur.n] # None)
   /\ phase \in {"ready", "run", "done"}
 
-\* liveness: under weak fairness every run finishes (finite lattice, monotone transfers)
+\* liveness: under weak fairness of the solver's own steps, and without needless re-queues
+\* (behaviours of NextCore), every run finishes (finite lattice, monotone transfers)
 Termination == <>(phase = "done")
 =============================================================================
